@@ -35,6 +35,7 @@ func verifTask(name string, notification bool)
 func verifSched(explore bool)
 func verifMapOrder(explore bool)
 func verifLockBusy(busy bool)
+func verifOnLock(f func())
 `
 
 func (e *Engine) byteIn(name, set string) *symv {
@@ -240,6 +241,12 @@ var intrinsics = map[string]extFn{
 	// while another handler runs; natively the harness creates that situation itself.
 	"verifLockBusy": func(e *Engine, _ *frame, _ *ssa.Function, a []value) value {
 		e.lockBusy = e.truth(a[0])
+		return nil
+	},
+	// verifOnLock(f): f runs once, at the next sync.Mutex / RWMutex Lock call - it stands for a message that
+	// was queued on that mutex earlier and is served first when the mutex is handed over.
+	"verifOnLock": func(e *Engine, _ *frame, _ *ssa.Function, a []value) value {
+		e.onLock = a[0]
 		return nil
 	},
 	"verifSched": func(e *Engine, _ *frame, _ *ssa.Function, a []value) value {
